@@ -904,8 +904,10 @@ class Interp:
             if not sets:
                 continue
             s2 = st.copy()
-            s2.facts |= set.intersection(*sets) if len(sets) > 1 else sets[0]
+            added = set.intersection(*sets) if len(sets) > 1 else sets[0]
+            s2.facts |= added
             edge[(bi, tb)] = s2
+            self.res.events.append(Event('branch', fid[-1][0], tuple(fid), bi, t.get('span'), s2, val=d, extra={'target': tb, 'added': added, 'exp': t.get('exp')}))
         ob = t['otherwise']
         if ob in live and ob not in by_target:
             fs = self.switch_facts(st, d, dty, None, vals)
@@ -913,6 +915,7 @@ class Interp:
                 s2 = st.copy()
                 s2.facts |= fs
                 edge[(bi, ob)] = s2
+                self.res.events.append(Event('branch', fid[-1][0], tuple(fid), bi, t.get('span'), s2, val=d, extra={'target': ob, 'added': fs, 'exp': t.get('exp')}))
 
     def merge_edge(self, edge, fid, key, st):
         edge[key] = st
@@ -1016,7 +1019,9 @@ class Interp:
                         envp = ('addr', tmp)
                 else:
                     envp = fv
+                cev = self.event('call', st, fid, bi, body.get('span'), callee=cid, args=[envp] + cargs, extra={'closure': True, 'callee': {}})
                 out, ret = self.run_body(body, fid + ((cid, bi),), st, [envp] + cargs)
+                cev.ret = ret
                 if out is None:
                     return ('never',)
                 self.adopt(st, out)
